@@ -36,14 +36,26 @@ Print Assumptions C09_reverse_closed_polygon.
 
 (** reverse_involutive — PARTIAL: proved for closed polygons in the documented normal form (first edge and closing edge
     of positive length).  Full statement: reverse (reverse p) = nf p for every well-formed p (nf: a LineTo back to the
-    start followed by a zero-length Close is a Close), and reverse (reverse (reverse p)) = reverse p.  Missing: open
-    subpaths with curves (follows from C09_reverse_open by an induction not finished) and closed subpaths whose first
-    record is a curve; both are checked on every run (flag 32 of the judge: nf(RR) = nf(p) and RRR = R on the Go output). *)
+    start followed by a zero-length Close is a Close), and reverse (reverse (reverse p)) = reverse p.  Open subpaths with
+    curves are now FULL (C09_reverse_involutive_open_subpaths below).  Missing: closed subpaths with curves (the first record
+    being a curve, a LineTo back to the start before the Close); they are checked on every run (flag 32 of the judge: nf(RR) = nf(p) and RRR = R on the Go output). *)
 Theorem C09_reverse_involutive_partial : forall p0 p1 ps,
   pt_eqb p0 (last (p1 :: ps) p0) = false -> pt_eqb p0 p1 = false ->
   reverse (reverse (SM p0 :: lines (p1 :: ps) ++ [SZ p0])) = SM p0 :: lines (p1 :: ps) ++ [SZ p0].
 Proof. exact reverse_involutive_polygon. Qed.
 Print Assumptions C09_reverse_involutive_partial.
+
+(** reverse_involutive — FULL for every path made of OPEN subpaths with any segment types (lines, quadratic and cubic Béziers,
+    arcs with stored flags 0..3): reversing twice gives the path back, record for record (control points swapped back, sweep flags
+    flipped back, end points restored).  [flat l] is the concatenation of the subpaths M p body. *)
+Theorem C09_reverse_involutive_open_subpaths : forall l, Forall osub_ok l -> reverse (reverse (flat l)) = flat l.
+Proof. exact reverse_involutive_open_subpaths. Qed.
+Print Assumptions C09_reverse_involutive_open_subpaths.
+
+(** ... and Reverse reverses the order of the subpaths and every subpath on its own *)
+Theorem C09_reverse_open_subpaths_each : forall l, Forall osub_ok l -> reverse (flat l) = flat (rev (map rsub l)).
+Proof. exact reverse_flat. Qed.
+Print Assumptions C09_reverse_open_subpaths_each.
 
 Theorem C09_flip_sweep_involutive : forall fl, In fl [0; 1; 2 # 1; 3 # 1] -> flip_sweep (flip_sweep fl) = fl.
 Proof. exact flip_sweep_invol. Qed.
